@@ -52,3 +52,61 @@ func verifH_C33_s3_keys_distinct() {
 	verifAssert(k1 != k2, "two uploads never share an object key")
 	verifAssert(len(k1) == 36 && len(k2) == 36, "keys have the UUID text shape")
 }
+
+// A random source whose every 16-byte block is distinct from every other block it
+// ever produced (the ideal a 122-bit random UUID stands on): the global block
+// number is written at both ends of each block, clear of the UUID version and
+// variant bits.
+var verifC33Pos int
+
+func verifC33RandBlocks(b []byte) (int, error) {
+	for i := range b {
+		p := verifC33Pos
+		blk := p / 16
+		switch p % 16 {
+		case 0, 15:
+			b[i] = byte(blk)
+		case 1, 14:
+			b[i] = byte(blk >> 8)
+		case 2, 13:
+			b[i] = byte(blk >> 16)
+		default:
+			b[i] = 0x5a
+		}
+		verifC33Pos++
+	}
+	// a read never ends inside a block: the next draw starts a fresh one
+	if r := verifC33Pos % 16; r != 0 {
+		verifC33Pos += 16 - r
+	}
+	return len(b), nil
+}
+
+// No key is handed out twice over a long run of uploads in one process.
+//
+//verif:unwind 4096
+//verif:maxdecisions 20000
+//verif:stub time.Now = verifC33Now
+//verif:stub crypto/rand.Read = verifC33RandBlocks
+//verif:bound 300 (quick) / 5000 (thorough) consecutive key generations in one process, the wall clock frozen at ANY instant (so time contributes nothing); crypto/rand is an ideal source whose 16-byte blocks never repeat. State a key generator keeps between calls (pools, counters) is exercised for that many calls; longer runs and several processes are outside the bound
+func verifH_C33_s3_long_run() {
+	verifC33Pos = 0
+	verifC33Sec = 1700000000
+	verifC33Nsec = verifNondetInt64("nsec")
+	verifAssume(verifC33Nsec >= 0 && verifC33Nsec < 1000000000)
+	n := 300
+	if verifTier() == 1 {
+		n = 5000
+	}
+	seen := make(map[string]int, n)
+	for i := 1; i <= n; i++ {
+		k := generateUUID()
+		prev := seen[k]
+		verifAssert(prev == 0, "no object key is handed out twice in one process")
+		if prev != 0 {
+			return
+		}
+		seen[k] = i
+	}
+	verifReach("long-run")
+}
